@@ -1,5 +1,5 @@
 /-
-  C01 — Every signature relic produces verifies.   PowerShell part (model `Relic.Model.PS`, code after fixes F8a–F8c),
+  C01 — Every signature relic produces verifies.   PowerShell part (model `Relic.Model.PS`, code after fixes F8a–F8c and F-ps-eol),
   and the refutation of the property for the code as it was (F8).
 -/
 import Relic.Proofs.PS
